@@ -299,8 +299,8 @@ func e2eFidelity(c *Ctx) {
 	n := c.N(8, 150)
 	base := libraryGoroutines()
 	for k := 0; k < n; k++ {
-		cfg := baseCfgs[k%len(baseCfgs)]
-		h := genHistory(r, cfg, histOpts{units: 3 + r.Intn(5), maxCols: 1 + r.Intn(8), maxRows: 2, rotations: true, ignorables: k%2 == 0})
+		cfg := baseCfg(r, k)
+		h := genHistory(r, cfg, histOpts{units: 3 + r.Intn(5), maxCols: 1 + r.Intn(8), maxRows: 2, rotations: true, ignorables: k%2 == 0, oddCols: true})
 		h.encode(c)
 		env, err := newE2E(h.tables, 4000000000, nil)
 		if err != nil {
@@ -313,6 +313,7 @@ func e2eFidelity(c *Ctx) {
 		res := env.run(0, e2eAttempt{events: evs, terminal: "eof", cancelInHandler: -1, holdAfter: -1}, base)
 		env.close()
 		c.R.Count(fmt.Sprintf("e2e/%s/gtid%v", cfg.Key(), k%2 == 0))
+		c.R.Dist[cfg.PadKey()]++
 		exp := strs(h.expectedTxVals(c, h.txs, f0, uint32(o0)))
 		got := acceptedOf(res.calls)
 		desc := fmt.Sprintf("e2e cfg=%s units=%v", cfg, h.kinds)
@@ -336,7 +337,7 @@ func e2eResume(c *Ctx) {
 	r := c.Rng
 	base := libraryGoroutines()
 	for k := 0; k < c.N(4, 60); k++ {
-		cfg := baseCfgs[r.Intn(len(baseCfgs))]
+		cfg := baseCfg(r, r.Intn(len(baseCfgs)))
 		h := genHistory(r, cfg, histOpts{units: 4 + r.Intn(5), maxCols: 3, maxRows: 2, rotations: true, ignorables: true, bigOffsets: k%2 == 0})
 		h.encode(c)
 		f0, o0 := startOf(h)
@@ -380,7 +381,7 @@ func e2eAttempts(c *Ctx) {
 	base := libraryGoroutines()
 	faults := []string{"close", "reset", "short", "outofseq", "err", "eof", "cancel-idle", "cancel-handler", "handler-err", "cancel-handler-err"}
 	for k := 0; k < c.N(6, 120); k++ {
-		cfg := baseCfgs[r.Intn(len(baseCfgs))]
+		cfg := baseCfg(r, r.Intn(len(baseCfgs)))
 		h := genHistory(r, cfg, histOpts{units: 4 + r.Intn(5), maxCols: 3, maxRows: 2, rotations: true, ignorables: k%2 == 0})
 		h.encode(c)
 		if len(h.txs) < 2 {
